@@ -29,7 +29,7 @@ RULE = (
     "terms = contexts^d x leaves with an eager value (d<=1 quick, d<=2 over 21 core contexts thorough) plus 8 hand-listed multi-dataset "
     "graphs; pass A: callables x {ValueError, KeyError, TypeError, StopIteration, CacheGetFailure, EvaluationError, "
     "KeyNotFoundError} x all dictionaries; pass B: fault scripts {none} + {callable raises ValueError when its first "
-    "argument is 1 / is 2} x all ordered pairs of dictionaries (states = cache contents after the first evaluation). "
+    "argument is 1 / is 2; effects raise always} x all ordered pairs with a failed first evaluation (states = cache contents after it). "
     "Non-trivial = transitions whose evaluation fails."
 )
 ASSUMPTIONS = [
